@@ -141,4 +141,120 @@ theorem runGuards_congr {cfg : Cfg} {s s' : Store} {r : Req} :
       have := (evalGuard_proj h1).1
       simp [readsOf, ← this, hp]
 
+/-! ### The verdict cache of the auth webhook -/
+
+section WebhookLemmas
+variable {π β κ : Type}
+
+/-- every cache entry is the verdict the *own* webhook of some project gave, for that body, at
+the time recorded in the entry, and the request that obtained it is in the log -/
+def WInv (w : Webhook π β κ) (c : List (WEntry κ)) (log : List (WRec π β)) : Prop :=
+  ∀ e ∈ c, ∃ p b, e.key = w.key p b ∧ e.verdict = w.hook p e.time b ∧
+    ∃ x ∈ log, x.proj = p ∧ x.body = b ∧ x.time = e.time ∧ x.verdict = e.verdict ∧ x.consulted = true
+
+/-- what the theorem says about one logged request, relative to the whole log -/
+def WGood (w : Webhook π β κ) (log : List (WRec π β)) (x : WRec π β) : Prop :=
+  (x.consulted = true → x.verdict = w.hook x.proj x.time x.body) ∧
+  (x.consulted = false → ∃ t0, x.time < t0 + w.ttl ∧ x.verdict = w.hook x.proj t0 x.body ∧
+      ∃ y ∈ log, y.proj = x.proj ∧ y.body = x.body ∧ y.time = t0 ∧ y.verdict = x.verdict ∧ y.consulted = true)
+
+theorem WInv.mono {w : Webhook π β κ} {c : List (WEntry κ)} {l l' : List (WRec π β)}
+    (h : WInv w c l) (hl : ∀ x ∈ l, x ∈ l') : WInv w c l' := by
+  intro e he
+  obtain ⟨p, b, hk, hv, x, hx, hrest⟩ := h e he
+  exact ⟨p, b, hk, hv, x, hl x hx, hrest⟩
+
+theorem Webhook.lookup_some [DecidableEq κ] {w : Webhook π β κ} {c : List (WEntry κ)} {k : κ} {t : Nat} {e : WEntry κ}
+    (h : w.lookup c k t = some e) : e ∈ c ∧ e.key = k ∧ t < e.time + w.ttl := by
+  unfold Webhook.lookup at h
+  have h1 := List.mem_of_find?_eq_some h
+  have h2 := List.find?_some h
+  simp at h2
+  exact ⟨h1, h2.1, h2.2⟩
+
+theorem Webhook.run_good [DecidableEq κ] (w : Webhook π β κ)
+    (hkey : ∀ p b p' b', w.key p b = w.key p' b' → p = p' ∧ b = b') :
+    ∀ (ops : List (WOp π β κ)) (c : List (WEntry κ)) (l0 : List (WRec π β)), WInv w c l0 →
+      ∀ x ∈ w.run ops c, WGood w (l0 ++ w.run ops c) x := by
+  intro ops
+  induction ops with
+  | nil => intro c l0 _ x hx; simp [Webhook.run] at hx
+  | cons op ops ih =>
+    intro c l0 hinv x hx
+    cases op with
+    | evict keep =>
+      simp only [Webhook.run] at hx ⊢
+      apply ih _ l0 _ x hx
+      intro e he
+      exact hinv e (List.mem_filter.mp he).1
+    | req p b t =>
+      simp only [Webhook.run] at hx ⊢
+      -- the head record and the cache after it
+      cases hlk : w.lookup c (w.key p b) t with
+      | some e =>
+        have hv : w.verify c p b t = (e.verdict, false, c) := by simp [Webhook.verify, hlk]
+        rw [hv] at hx ⊢
+        simp only at hx ⊢
+        obtain ⟨hec, hek, het⟩ := Webhook.lookup_some hlk
+        obtain ⟨p', b', hk', hv', y, hy, hyp, hyb, hyt, hyv, hyc⟩ := hinv e hec
+        obtain ⟨hpp, hbb⟩ := hkey p' b' p b (by rw [← hk', hek])
+        subst hpp; subst hbb
+        have hhead : WGood w (l0 ++ ⟨p', b', t, e.verdict, false⟩ :: w.run ops c) ⟨p', b', t, e.verdict, false⟩ := by
+          refine ⟨by simp, fun _ => ⟨e.time, het, hv', y, by simp [hy], hyp, hyb, hyt, hyv, hyc⟩⟩
+        rcases List.mem_cons.mp hx with hx | hx
+        · rw [hx]; exact hhead
+        · have := ih c (l0 ++ [⟨p', b', t, e.verdict, false⟩])
+            (hinv.mono (fun z hz => by simp [hz])) x hx
+          simpa [List.append_assoc] using this
+      | none =>
+        have hv : w.verify c p b t =
+            (w.hook p t b, true, if (w.hook p t b).cacheable then ⟨w.key p b, w.hook p t b, t⟩ :: c else c) := by
+          simp [Webhook.verify, hlk]
+        rw [hv] at hx ⊢
+        simp only at hx ⊢
+        have hhead : ∀ rest, WGood w (l0 ++ ⟨p, b, t, w.hook p t b, true⟩ :: rest) ⟨p, b, t, w.hook p t b, true⟩ :=
+          fun _ => ⟨fun _ => rfl, by simp⟩
+        rcases List.mem_cons.mp hx with hx | hx
+        · rw [hx]; exact hhead _
+        · have hinv' : WInv w (if (w.hook p t b).cacheable then ⟨w.key p b, w.hook p t b, t⟩ :: c else c)
+              (l0 ++ [⟨p, b, t, w.hook p t b, true⟩]) := by
+            have hold : WInv w c (l0 ++ [⟨p, b, t, w.hook p t b, true⟩]) :=
+              hinv.mono (fun z hz => by simp [hz])
+            split
+            · intro e he
+              rcases List.mem_cons.mp he with he | he
+              · subst he
+                exact ⟨p, b, rfl, rfl, ⟨p, b, t, w.hook p t b, true⟩, by simp, rfl, rfl, rfl, rfl, rfl⟩
+              · exact hold e he
+            · exact hold
+          have := ih _ (l0 ++ [⟨p, b, t, w.hook p t b, true⟩]) hinv' x hx
+          simpa [List.append_assoc] using this
+
+end WebhookLemmas
+
+theorem evalGuard_verifyAccess (cfg : Cfg) (s : Store) (e : Env) (r : Req) :
+    evalGuard cfg s e r .verifyAccess = .ok e := by
+  unfold evalGuard
+  cases e.proj <;> simp [evalLocal]
+
+/-- without a configured webhook `runGuardsA` is `runGuards`: the webhook-free matrix theorems
+speak about the same execution -/
+theorem runGuardsA_off (cfg : Cfg) (s : Store) (tok : Token) (proc : String) (r : Req) :
+    ∀ (gs : List Guard) (e : Env) (a : AuthSt) (idx n : Nat), a.on = false →
+      runGuardsA cfg s tok proc r gs e a idx n = (runGuards cfg s e r gs, a, n) := by
+  intro gs
+  induction gs with
+  | nil => intro e a idx n _; simp [runGuardsA, runGuards]
+  | cons g gs ih =>
+    intro e a idx n ha
+    by_cases hg : g = .verifyAccess
+    · subst hg
+      simp only [runGuardsA, runGuards, evalGuard_verifyAccess]
+      cases e.proj <;> simp [AuthSt.requiresAuth, ha, ih _ _ _ _ ha]
+    · cases g <;> first
+        | exact absurd rfl hg
+        | (simp only [runGuardsA, runGuards]
+           generalize evalGuard cfg s e r _ = res
+           cases res <;> simp [ih _ _ _ _ ha])
+
 end Yorkie.Access
